@@ -345,7 +345,28 @@ def _as_real_array(v, what):
     return a
 
 
-def _scale(name, extras, v, n, ref, floor=1.0):
+def _tiny_relative(name, n):
+    """closed forms that are accurate RELATIVE to the result for tiny |x| on the reference tree (established by a
+    sweep over |x| = 1e-30 ... 1e-6, all orders): everything except the forms that shift the argument by an O(1)
+    constant before evaluating an odd function - sin at even n >= 2 (sin(n pi/2 + x)), cos at odd n, arctanh at even
+    n >= 2 ((1-x)^-n - (1+x)^-n) - and arcsin/arccos at n >= 10 (complex Legendre evaluation, 3e-12); for those the
+    absolute scale max(1, ...) stays"""
+    if name == 'sin':
+        return not (n >= 2 and n % 2 == 0)
+    if name == 'cos':
+        return n % 2 == 0
+    if name == 'arctanh':
+        return not (n >= 2 and n % 2 == 0)
+    if name in ('arcsin', 'arccos'):
+        return n < 10
+    return name not in ('hyperu', 'psi', 'polygamma', 'gammaln', 'tan', 'tanh')
+
+
+def _is_tiny(els):
+    return all(abs(v) <= 1e-3 for v in els) and any(v != 0 for v in els)
+
+
+def _scale(name, extras, v, n, ref, floor=1.0, rel=False):
     """error scale of one element: the magnitude of the result, or of its change under a relative perturbation of
     the argument (|x f^(n+1)(x)|: conditioning of the mathematical problem; it dominates where factorially large
     pole terms cancel, e.g. odd orders of psi at negative half-integers, arctan^(16) at x = 1), at least ``floor``"""
@@ -356,7 +377,7 @@ def _scale(name, extras, v, n, ref, floor=1.0):
     # only length scale is the distance to its singularity at 0 (and for the purely multiplicative closed forms),
     # relative to max(|x|, 1) otherwise (poles / branch points at distance ~1, entire functions of unit scale: forming
     # 1 - x, x - i or pi/2 + x rounds x absolutely)
-    length = abs(v) if (name in ZERO_SING or name in RELATIVE) else max(abs(v), 1.0)
+    length = abs(v) if (rel or name in ZERO_SING or name in RELATIVE) else max(abs(v), 1.0)
     try:
         sc = max(floor, float(abs(ref)), float(abs(mpf(length) * nxt)))
     except OverflowError:
@@ -377,7 +398,7 @@ def _check_values(what, got, refs, scale_fn, shape, tol, stats, floor=1.0):
         if ref is None or not mpmath.isfinite(ref):
             raise Inconclusive('non-finite reference')
         aref = abs(ref)
-        if aref != 0 and not (mpf('1e-300') < aref < mpf('1e300')):
+        if aref != 0 and not (mpf('1e-300') < aref < mpf('1.7e308')):
             raise Inconclusive('reference outside the range of normal doubles')
         g = flat[k]
         gi = float(complex(g).imag)
@@ -385,7 +406,8 @@ def _check_values(what, got, refs, scale_fn, shape, tol, stats, floor=1.0):
         if not np.isfinite(gr) or not np.isfinite(gi):
             raise Violation('%s: element %d is %r, reference %s' % (what, k, g, mpmath.nstr(ref, 17)))
         abs_err = max(float(abs(mpf(gr) - ref)), abs(gi))
-        scale = max(floor, float(aref))
+        fl = floor[k] if isinstance(floor, (list, tuple)) else floor
+        scale = max(fl, float(aref))
         if abs_err > 1e-3 * tol * scale:
             # noticeable error: measure it in the conditioning-aware scale (costs the reference of order n + 1)
             scale = scale_fn(k)
@@ -394,7 +416,7 @@ def _check_values(what, got, refs, scale_fn, shape, tol, stats, floor=1.0):
             stats.err(min(err, 1e300))
         if err > tol:
             raise Violation('%s: element %d is %r, reference %s (error %.2e relative to %.3e = max(%g, |ref|, max(|x|, L) |f^(n+1)(x)|), tol %.0e)'
-                            % (what, k, g, mpmath.nstr(ref, 17), err, scale, floor, tol))
+                            % (what, k, g, mpmath.nstr(ref, 17), err, scale, fl, tol))
 
 
 def _same(a, b):
@@ -491,30 +513,39 @@ def _prop_smooth(case, stats):
                             '(now %r)' % (lbl, np.asarray(obj).tolist()))
     with mp.workdps(DPS):
         els = _elements(x)
+        # tiny arguments: the result (often ~ x) must be accurate relative to ITSELF wherever the closed form delivers that
+        tiny = _is_tiny(els) and not _is_f32(x)
         skip_mp = (name == 'reciprocal' and n == 0 and _is_int_form(x))   # NumPy's integer reciprocal: order 0 only vs NumPy
         if not skip_mp:
             refs = [_ref(name, extras, v, n) for v in els]
+            rel = tiny and _tiny_relative(name, n)
+            if rel:
+                # per element: at exactly x = 0 the numerical reference of a vanishing derivative is noise, keep the floor there
+                floor = [0.0 if v != 0 else 1.0 for v in els]
             def scale_fn(k):
-                return _scale(name, extras, els[k], n, refs[k], floor)
+                fk = floor[k] if isinstance(floor, list) else floor
+                return _scale(name, extras, els[k], n, refs[k], fk, rel and els[k] != 0)
             _check_values(what, ret, refs, scale_fn, np.shape(x), tol, stats, floor)
             if out is not None:
                 _check_values(what + ' [contents of out]', out, refs, scale_fn, np.shape(x), tol, stats, floor)
         if cross:
             sname = cross['f']
-            sfloor = 0.0 if sname in RELATIVE else 1.0
+            srel = tiny and _tiny_relative(sname, n)
+            sfloor = [0.0 if (sname in RELATIVE or (srel and v != 0)) else 1.0 for v in els]
             srefs = [_ref(sname, (), v, n) for v in els]
             def sscale_fn(k):
-                return _scale(sname, (), els[k], n, srefs[k], sfloor)
+                return _scale(sname, (), els[k], n, srefs[k], sfloor[k], srel and els[k] != 0)
             swhat = 'nthderiv.%s(x, n=%d) evaluated %s %s' % (sname, n, 'before' if cross['first'] else 'after', what)
             _check_values(swhat, sib_ret, srefs, sscale_fn, np.shape(x), max(SMOOTH[sname]['tol'], tol), stats, sfloor)
         if not spec['slow']:
             for fname, ex2, n2, lbl, r2 in seq_rets:
                 if fname == 'reciprocal' and n2 == 0 and _is_int_form(x):
                     continue          # NumPy's integer reciprocal
-                fl2 = 0.0 if fname in RELATIVE else 1.0
+                rel2 = tiny and _tiny_relative(fname, n2)
+                fl2 = [0.0 if (fname in RELATIVE or (rel2 and v != 0)) else 1.0 for v in els]
                 refs2 = [_ref(fname, ex2, v, n2) for v in els]
-                def scale2(k, fname=fname, ex2=ex2, n2=n2, refs2=refs2, fl2=fl2):
-                    return _scale(fname, ex2, els[k], n2, refs2[k], fl2)
+                def scale2(k, fname=fname, ex2=ex2, n2=n2, refs2=refs2, fl2=fl2, rel2=rel2):
+                    return _scale(fname, ex2, els[k], n2, refs2[k], fl2[k], rel2 and els[k] != 0)
                 _check_values(lbl, r2, refs2, scale2, np.shape(x), max(SMOOTH[fname]['tol'], tol), stats, fl2)
     if n == 0:
         # order 0 is the function itself
@@ -649,6 +680,11 @@ def _int_points(name, ivs):
     return pts + BIG_INTS.get(name, [])
 
 
+# ---- arguments next to the overflow edge of the RESULT: [lowest, highest] argument for which f^(n)(x), every n, is a
+# finite normal double (exp/expm1: e^x up to x = 709.78; exp2: 2^x ln2^n; sinh/cosh: e^|x|/2 up to |x| = 710.47)
+EDGE = {'exp': (-689.0, 709.7), 'expm1': (-689.0, 709.7), 'exp2': (-985.0, 1023.9), 'sinh': (-710.4, 710.4), 'cosh': (-710.4, 710.4)}
+
+
 # ---- points of extreme magnitude ---------------------------------------------------------------------------------
 def _lgf(k):
     return math.lgamma(k + 1) / math.log(10)
@@ -687,7 +723,7 @@ def _wide_range(name, extras, n):
     signs, lmin, lmax, psmall, plarge = spec
     mm = extras[0] if name == 'polygamma' else 0
     if psmall is not None and psmall(n) > 0:
-        lmin = max(lmin, -(299.0 - _lgf(n + mm)) / psmall(n))
+        lmin = max(lmin, -(304.0 - _lgf(n + mm)) / psmall(n))
     if plarge is not None and plarge(n) > 0:
         lmax = min(lmax, 297.0 / plarge(n))
     if lmin >= lmax:
@@ -742,7 +778,11 @@ def smooth_cases(draw, name, tier):
         extras = [np.int64(e) if isinstance(e, int) else np.float64(e) for e in extras]
     steered = {}
     # kind of argument: float64 in the usual range (most cases), float64 of extreme magnitude, integer typed, float32
-    kind = draw(st.sampled_from(['f64'] * 6 + ['wide', 'wide', 'int', 'int', 'f32']))
+    kind = draw(st.sampled_from(['f64'] * 6 + ['wide', 'wide', 'int', 'int', 'f32', 'tiny', 'tiny', 'edge']))
+    if kind == 'tiny' and not (_inside(ivs, 1e-9) and name not in ZERO_SING):
+        kind = 'wide'          # no neighbourhood of 0 in the domain (or singular there): the wide kind covers small |x|
+    if kind == 'edge' and name not in EDGE:
+        kind = 'wide'
     int_pts = _int_points(name, ivs)
     if kind == 'int' and not int_pts:
         kind = 'f64'
@@ -772,6 +812,18 @@ def smooth_cases(draw, name, tier):
     cnt = int(np.prod(shape, dtype=int))
     if kind == 'wide':
         vals = [draw(_wide_point(name, extras, n)) for _ in range(cnt)]
+    elif kind == 'tiny':
+        # |x| log-uniform in [1e-30, 1e-6], both signs where the domain has them; now and then a signed zero
+        neg_ok = _inside(ivs, -1e-9)
+        tp = st.tuples(st.booleans(), gen.nice_floats(-30.0, -6.0)).map(lambda t: (-1.0 if (t[0] and neg_ok) else 1.0) * 10.0 ** t[1])
+        tp = st.one_of(tp, tp, tp, tp, tp, st.sampled_from([0.0, -0.0] if neg_ok else [0.0]))
+        vals = [draw(tp) for _ in range(cnt)]
+    elif kind == 'edge':
+        # the last two units of the argument range in which the result is still a finite double
+        lo_e, hi_e = EDGE[name]
+        ep = st.tuples(st.booleans(), st.one_of(gen.nice_floats(0.0, 2.0), gen.nice_floats(0.0, 0.7))).map(
+            lambda t: (lo_e + t[1]) if t[0] else (hi_e - t[1]))
+        vals = [draw(ep) for _ in range(cnt)]
     else:
         vals = [draw(pt) for _ in range(cnt)]
     if name in ('erf', 'erfi') and n >= 2 and KF.is_open(KF_ERF0):
@@ -919,6 +971,10 @@ def _classes(case):
     if case.get('kind') == 'wide':
         mx = max(abs(v) for v in _elements(case['x']))
         c.append('wide:%s' % ('|x|>=1e30' if mx >= 1e30 else ('|x|>=1e3' if mx >= 1e3 else ('|x|<=1e-30' if mx <= 1e-30 else '|x|<=1e-2'))))
+    if case.get('kind') == 'tiny':
+        c.append('tiny:%s' % ('relative-scale' if _tiny_relative(case['f'], n) else 'absolute-scale(excepted form)'))
+        if any(v == 0 and np.signbit(v) for v in _elements(case['x'])):
+            c.append('tiny:has-negative-zero')
     if case.get('seq'):
         c.append('seq:len=%d' % len(case['seq']))
     el = _elements(case['x'])
